@@ -331,6 +331,22 @@ fn candle_eq(h: &mut H) {
 			}
 		}
 	}
+	// long sequences: any number of invalid elements, in particular multiples of 256 and 65 536
+	for len in [255usize, 256, 257, 511, 512, 65535, 65536, 65537] {
+		vs.push(vec![V::NAN; len]);
+		vs.push(vec![1.0; len]);
+		let mut one_bad = vec![1.0; len];
+		one_bad[len / 2] = V::INFINITY;
+		vs.push(one_bad);
+		let mut all_but_one = vec![V::NAN; len];
+		all_but_one[0] = 1.0;
+		vs.push(all_but_one);
+		let mut n256 = vec![1.0; len];
+		for x in n256.iter_mut().take(256) {
+			*x = V::NAN;
+		}
+		vs.push(n256);
+	}
 	for s in &vs {
 		seqs += 1;
 		let want = s.iter().all(|x| x.is_finite());
@@ -355,6 +371,15 @@ fn candle_eq(h: &mut H) {
 				css.push(vec![*a, *b, *c]);
 			}
 		}
+	}
+	for len in [255usize, 256, 257, 512, 65536] {
+		css.push(vec![cset[3]; len]);
+		css.push(vec![cset[0]; len]);
+		let mut m = vec![cset[0]; len];
+		for x in m.iter_mut().take(256) {
+			*x = cset[4];
+		}
+		css.push(m);
 	}
 	for s in &css {
 		seqs += 1;
@@ -466,6 +491,12 @@ fn text_sources(h: &mut H) {
 				strings.push(format!("{p}{name}{q}"));
 				strings.push(format!("{p}{}{q}", name.to_uppercase()));
 			}
+		}
+		// fixed-width fields: long runs of padding on either side
+		for pad in [8usize, 31, 32, 33, 64, 300] {
+			strings.push(format!("{}{name}", " ".repeat(pad)));
+			strings.push(format!("{name}{}", " ".repeat(pad)));
+			strings.push(format!("{}{name}{}", "\t".repeat(pad / 2), " ".repeat(pad)));
 		}
 		let mid = name.len() / 2;
 		strings.push(format!("{} {}", &name[..mid], &name[mid..]));
